@@ -15,7 +15,11 @@ Tie:  H  the hand model (lean/XrsVerif/Model/Regions.lean: two-pass labelling wi
 Oracle (from the property statement alone, independent of the model): flood fill over equal-valued
 4-/8-adjacent cells; labels must induce the same partition, be > 0, NaN exactly at NaN cells;
 shape / dims / coords / attrs / name of the result are those of the input; the input is not modified.
-The oracle is applied only to integer-valued rasters over small alphabets (the property's domain).
+The oracle is applied only to rasters on which "same value" is equality for the code's per-cell closeness test
+|neighbour - cell| <= atol + rtol*|cell| (the property's domain): small alphabets, and -- magnitude / dtype classes,
+`magnify` -- any alphabet whose different values are further apart than twice that tolerance, in every integer dtype
+int8..uint64 and float32 / float64, with negative values, dtype extremes, large nodata-like cells (1e5, 1e6, 1e20, -999999)
+next to small classes, large close-but-different values, rasters with more cells than the dtype can count.
 """
 import json
 import os
@@ -38,7 +42,7 @@ class Counted(set):
     def __len__(self):
         return set.__len__(self) + self.extra
 
-INT_DTYPES = ["int64", "int32", "int16", "int8", "uint8", "uint16", "uint32"]
+INT_DTYPES = ["int64", "int32", "int16", "int8", "uint8", "uint16", "uint32", "uint64"]
 FLOAT_DTYPES = ["float64", "float32"]
 
 
@@ -119,7 +123,11 @@ CODES = {1: "NaN pattern of the result differs from the input's", 2: "a label is
 
 def oracle_labels(data, lab, n):
     """data, lab: 2-D arrays (any dtype).  None or a description"""
-    d = np.asarray(data).astype(np.float64)
+    d = np.asarray(data)
+    # integers are compared as integers (a float64 copy would identify distinct 64-bit values)
+    if d.dtype.kind == "u" and (d.size == 0 or int(d.max()) < 2 ** 63):
+        d = d.astype(np.int64)          # one oracle specialisation less
+    d = d.astype(np.uint64) if d.dtype.kind == "u" else d.astype(np.int64) if d.dtype.kind in "ib" else d.astype(np.float64)
     lb = np.asarray(lab).astype(np.float64)
     if lb.shape != d.shape:
         return f"result shape {lb.shape} != input shape {d.shape}"
@@ -576,6 +584,26 @@ def gen_narrow(rng, which):
     return dict(kind="gen", gen="columns", rows=3, cols=rng.choice([140, 270]), dtype=dtype, n=rng.choice([4, 8]), tag="narrow:columns")
 
 
+def gen_mag(rng, k):
+    """the magnitude / dtype stream proper: blobs / noise over 2-5 values in three size classes (small; 130-250 cells: more
+    than int8 counts; 260-570 cells: more than uint8 counts), re-valued (magnify) in dtype number k of the ten, in turn"""
+    dt = ALL_DTYPES[k % len(ALL_DTYPES)]
+    size = rng.choice(["small", "small", "mid", "large"])
+    if size == "small":
+        h, w = rng.randrange(1, 9), rng.randrange(1, 12)
+    elif size == "mid":
+        h, w = rng.randrange(10, 14), rng.randrange(13, 18)
+    else:
+        h, w = rng.randrange(13, 20), rng.randrange(20, 30)
+    if rng.random() < 0.15:
+        h, w = w, h
+    nan_p = rng.choice([0.0, 0.0, 0.1]) if dt in FLOAT_DTYPES else 0.0
+    a = random_raster(rng, h, w, rng.choice([2, 3, 3, 4, 5]), nan_p, flip_p=rng.choice([None, 0.35, 0.2, 0.2]))
+    c = dict(kind="grid", n=rng.choice([4, 8]), dtype="float64", grid=[[tok(v) for v in row] for row in a.tolist()],
+             tag="mag:" + size, layout="C")
+    return magnify(rng, c, a, dtypes=[dt])
+
+
 def gen_wild(rng):
     """outside the property's domain (float closeness is not an equivalence): model vs code only"""
     h, w = rng.randrange(1, 6), rng.randrange(1, 7)
@@ -597,15 +625,183 @@ def gen_wild(rng):
                 tag="wild:" + mode, wild=True)
 
 
+# ---------------------------------------------------------------- value magnitude and dtype classes
+# The partition regions() must produce depends only on which cells hold equal values.  So the raster of any stream may be
+# re-valued by an injective map of its (small) alphabet into another magnitude / dtype class, and a few cells may be
+# overwritten with large-magnitude "nodata-like" values: the flood-fill oracle on the re-valued raster decides.
+#   dtype     every integer dtype int8..uint64 (negative values where signed), float32, float64
+#   neg       small negative and positive values            edges   the dtype's extremes and their neighbours
+#   bigclose  large values that differ by a few times the tolerance of the unchanged code (rtol*|v|), not less
+#   spike     the small alphabet kept, 1-3 cells overwritten with 1e5 / 1e6 / 1e20 / -999999 / dtype extremes
+# Kept inside the property's domain (`equality_domain`): all values finite, any two different values of the raster
+# further apart than twice atol + rtol*max|.| (so the per-cell closeness of the code is equality), 64-bit integers up to
+# 2^62 in magnitude (the kernel's own integer subtraction must not wrap).
+RTOL, ATOL = 1e-5, 1e-8
+I62 = 2 ** 62 - 1
+ALL_DTYPES = INT_DTYPES + FLOAT_DTYPES
+
+
+def dtype_range(dt):
+    if dt in FLOAT_DTYPES:
+        return None
+    ii = np.iinfo(dt)
+    return max(int(ii.min), -I62), min(int(ii.max), I62)
+
+
+def far_apart(vals):
+    """any two different values are further apart than 2*(atol + rtol*max|.|), in exact arithmetic"""
+    from fractions import Fraction
+    vs = sorted(set(Fraction(v) for v in vals))
+    tol2 = lambda a, b: 2 * (Fraction(ATOL) + Fraction(RTOL) * max(abs(a), abs(b)))      # noqa: E731
+    return all(b - a > tol2(a, b) for a, b in zip(vs, vs[1:]))
+
+
+def equality_domain(a):
+    """the raster is one on which the property reads 'same value' as equality (see above)"""
+    a = np.asarray(a)
+    if a.dtype.kind == "f":
+        v = a[~np.isnan(a)]
+        if not np.all(np.isfinite(v)):
+            return False
+        vals = [float(x) for x in np.unique(v).tolist()]
+    else:
+        vals = [int(x) for x in np.unique(a).tolist()]
+        if a.dtype.itemsize == 8 and any(abs(x) > I62 for x in vals):
+            return False
+    return len(vals) <= 4096 and far_apart(vals)
+
+
+def value_pool(rng, dt, klass, k):
+    """k different values of the class for dtype `dt` (None when the class does not exist for it)"""
+    rg = dtype_range(dt)
+    lo, hi = rg if rg else (None, None)
+    if klass == "neg":
+        pool = [-1, -2, -3, -5, -7, -100, 0, 1, 2, 3, 7]
+        if rg and lo == 0:
+            return None
+        pool = [v for v in pool if rg is None or lo <= v <= hi]
+        if dt in FLOAT_DTYPES:
+            pool += [-0.5, 0.5, -2.5]
+    elif klass == "edges":
+        if rg is None:
+            big = 3.0e38 if dt == "float32" else 1.0e308
+            pool = [big, -big, big / 4, 0.0, 1.0, -1.0, 2.0 ** -100]
+        else:
+            ii = np.iinfo(dt)
+            pool = [lo, hi, 0, (hi + 1) // 2]
+            # next to an extreme only where the unchanged code tells them apart (tolerance below 1/2)
+            step = 1 if RTOL * max(abs(lo), abs(hi)) * 2 < 0.5 else int(4 * RTOL * max(abs(lo), abs(hi))) + 3
+            pool += [lo + step, hi - step, hi - 2 * step]
+            if lo < 0:
+                pool += [-1, lo + 2 * step]
+            if int(ii.min) < lo:          # 64-bit: the true extremes are outside the judged domain
+                pool = [v for v in pool if abs(v) <= I62]
+    elif klass == "bigclose":
+        bases = [10 ** 5, 10 ** 6, 250000, 2 ** 24, 2 ** 31 - 10 ** 6, 10 ** 9, 10 ** 12, 2 ** 53 - 10 ** 12, -10 ** 5, -999999, -10 ** 9]
+        if dt in FLOAT_DTYPES:
+            bases += [10 ** 20, -10 ** 20] if dt == "float64" else []
+            bases = [b for b in bases if abs(b) < (2 ** 24 if dt == "float32" else 2 ** 53) or abs(b) >= 10 ** 20]
+        else:
+            bases = [b for b in bases if lo <= b and abs(b) * 1.01 + 64 <= hi]
+        if not bases:
+            return None
+        b = rng.choice(bases)
+        d = int(rng.choice([3, 5, 40]) * RTOL * abs(b)) + rng.choice([3, 7, 21])      # > 2*tol by construction
+        if abs(b) >= 10 ** 20:
+            d = 10 ** 16 * rng.choice([3, 7])
+        sgn = 1 if b > 0 else -1
+        pool = [b + sgn * i * d for i in range(k + 1)]
+    else:
+        raise ValueError(klass)
+    pool = list(dict.fromkeys(pool))
+    if dt == "float32":
+        pool = list(dict.fromkeys(float(np.float32(v)) for v in pool))
+    if len(pool) < k:
+        return None
+    out = rng.sample(pool, k)
+    return out if far_apart(out) else None
+
+
+def spike_values(rng, dt, n):
+    rg = dtype_range(dt)
+    if rg is None:
+        pool = [1e5, 1e6, 1e20, -999999.0, -1e5, 3.0e38 if dt == "float32" else 1e300, -9999.0, 65535.0]
+    else:
+        lo, hi = rg
+        pool = [v for v in [10 ** 5, 10 ** 6, -999999, -10 ** 5, 10 ** 12, 10 ** 18, -9999, 32767, -32768, 255, 127, -128, 65535,
+                            2 ** 31 - 1, -2 ** 31, 2 ** 32 - 1, lo, hi] if lo <= v <= hi]
+    return [rng.choice(pool) for _ in range(n)]
+
+
+def vtok(v):
+    return str(int(v)) if isinstance(v, (int, np.integer)) else tok(float(v))
+
+
+def magnify(rng, c, base, dtypes=None, classes=None):
+    """re-value the case `c` (whose raster `base` holds a small alphabet, NaN allowed): adds dtype / vmap / spikes / mag"""
+    vals = sorted(set(float(v) for v in np.asarray(base, dtype=np.float64).ravel().tolist() if v == v))
+    has_nan = bool(np.isnan(np.asarray(base, dtype=np.float64)).any())
+    if len(vals) > 12 or not vals:
+        return c
+    for _ in range(6):
+        dt = rng.choice(dtypes or (FLOAT_DTYPES if has_nan else ALL_DTYPES))
+        klass = rng.choice(classes or ["neg", "neg", "edges", "edges", "bigclose", "spike", "spike", "spike"])
+        if klass == "spike":
+            rg = dtype_range(dt)
+            if rg is not None and (min(vals) < rg[0] or max(vals) > rg[1]):
+                continue
+            if any(v != int(v) for v in vals) and dt not in FLOAT_DTYPES:
+                continue
+            new = [int(v) if dt not in FLOAT_DTYPES else v for v in vals]
+            n_sp = rng.choice([1, 1, 2, 3])
+            h, w = np.asarray(base).shape
+            spikes = [[rng.randrange(h), rng.randrange(w), vtok(v)] for v in spike_values(rng, dt, n_sp)] if h * w else []
+        else:
+            new = value_pool(rng, dt, klass, len(vals))
+            spikes = []
+            if new is None:
+                continue
+        c = dict(c, dtype=dt, vmap={vtok(int(k) if k == int(k) else k): vtok(v) for k, v in zip(vals, new)}, mag=klass)
+        if spikes:
+            c["spikes"] = spikes
+        if dt not in ("float64", "int64", "float32", "int32"):
+            c["layout"] = "C"          # one numba specialisation per extra dtype
+        return c
+    return c
+
+
+def revalue(a, c):
+    """apply c['vmap'] / c['spikes'] to the small-alphabet raster `a` -> array of dtype c['dtype'] (exact for integers)"""
+    dt = c["dtype"]
+    isf = dt in FLOAT_DTYPES
+    conv = (lambda t: untok(t)) if isf else (lambda t: int(t))      # noqa: E731
+    src = np.asarray(a, dtype=np.float64)
+    out = np.full(src.shape, np.nan if isf else 0, dtype=dt)
+    hit = np.isnan(src)
+    for k, v in c["vmap"].items():
+        m = src == float(untok(k))
+        out[m] = conv(v)
+        hit |= m
+    if not hit.all():
+        raise ValueError("vmap does not cover the raster's alphabet")
+    for y, x, v in c.get("spikes", []):
+        out[y, x] = conv(v)
+    return out
+
+
 def materialise(c):
     """case json -> numpy array of the case's dtype"""
     if c["kind"] == "grid":
         a = np.array([[untok(t) for t in row] for row in c["grid"]], dtype=np.float64)
         if a.ndim == 1:
             a = a.reshape(len(c["grid"]), 0)
+        if "vmap" in c:
+            return revalue(a, c)
         return a.astype(c["dtype"])
     if c["kind"] == "enum":
         return enum_raster(c["rows"], c["cols"], [untok(t) for t in c["alphabet"]], c["t"])
+    if "vmap" in c:
+        return revalue(materialise({k: v for k, v in c.items() if k not in ("vmap", "spikes")} | {"dtype": "int64"}), c)
     h, w = c["rows"], c["cols"]
     if c["gen"] == "alternating":
         a = (np.arange(h * w) % 2).reshape(h, w)
@@ -665,13 +861,77 @@ MODEL_MAX_CELLS_MANY = 1700
 
 
 def in_domain(c, a):
-    return not c.get("wild")
+    if c.get("wild"):
+        return False
+    if "vmap" in c:
+        return equality_domain(a)
+    return True
 
 
-def fail_key(a):
+def exactly_float64(a):
+    """the model is sent float64 tokens: only rasters whose values a float64 holds exactly"""
+    if a.dtype.kind == "f":
+        return True
+    return bool(np.all(np.abs(a.astype(np.float64)) < 2.0 ** 53))
+
+
+def fail_key(a, lab=None, n=4):
+    if a.dtype.kind == "i" and a.size and lab is not None:
+        lo = np.iinfo(a.dtype).min
+        at_min = a == lo
+        if at_min.any() and exactly_float64(np.where(at_min, 0, a)):
+            # is the dtype's minimum the only value that goes wrong?  (judge the raster without those cells)
+            d = np.where(at_min, np.nan, a.astype(np.float64))
+            lb = np.where(at_min, np.nan, np.asarray(lab).astype(np.float64))
+            if oracle_labels(d, lb, n) is None:
+                return "regions:signed-minimum"
     if a.dtype.kind in "iu" and np.iinfo(a.dtype).max < a.size:
         return "regions:label-dtype-overflow"
     return "regions:components"
+
+
+def verdict(c):
+    """-> finding key or None for one grid case (real code + oracle only)"""
+    a = materialise(c)
+    if a.size == 0:
+        return None
+    status, out, meta = run_real(a, c["n"], layout=c.get("layout", "C"))
+    if status != "ok" or meta or not in_domain(c, a):
+        return None
+    return fail_key(a, out, c["n"]) if oracle_labels(a, out, c["n"]) else None
+
+
+def shrink_case(c, key):
+    """greedy minimisation of a failing grid case: rows / columns are dropped from the four sides (halves first, then one at
+    a time) while the real code still fails the oracle with the same finding key; spikes move with the cut"""
+    def cut(cc, top, bottom, left, right):
+        g = cc["grid"]
+        h, w = len(g), len(g[0]) if g else 0
+        if top + bottom >= h or left + right >= w:
+            return None
+        out = dict(cc, grid=[row[left:w - right] for row in g[top:h - bottom]])
+        if "spikes" in cc:
+            out["spikes"] = [[y - top, x - left, v] for y, x, v in cc["spikes"] if top <= y < h - bottom and left <= x < w - right]
+        return out
+    cur = c
+    progress = True
+    trials = 0
+    while progress and trials < 400:
+        progress = False
+        h, w = len(cur["grid"]), len(cur["grid"][0])
+        for side in range(4):
+            size = h if side < 2 else w
+            for k in (size // 2, size // 4, 1):
+                if k < 1:
+                    continue
+                t = cut(cur, *[k if i == side else 0 for i in range(4)])
+                trials += 1
+                if t is not None and verdict(t) == key:
+                    cur, progress = t, True
+                    break
+            if progress:
+                break
+    return cur
 
 
 def check_case(r, c, requests, pending, model=True):
@@ -693,10 +953,18 @@ def check_case(r, c, requests, pending, model=True):
     if in_domain(c, a):
         bad = oracle_labels(a, out, c["n"])
         if bad:
-            r.fail(fail_key(a), f"{bad}; dtype={a.dtype}, shape={a.shape}, memory layout={c.get('layout', 'C')}, "
+            uv = np.unique(a[~np.isnan(a)] if a.dtype.kind == "f" else a).tolist()
+            key = fail_key(a, out, c["n"])
+            if c["kind"] == "grid" and a.size > 4 and sum(1 for f in r.failures if f["key"] == key) < 2 and not c.get("shrunk"):
+                small = shrink_case(c, key)
+                if small is not c:
+                    return check_case(r, dict(small, shrunk=True), requests, pending, model=False)
+            r.fail(key, f"{bad}; dtype={a.dtype}, shape={a.shape}, memory layout={c.get('layout', 'C')}, "
+                   f"values {uv[:8]}{'...' if len(uv) > 8 else ''}, "
                    f"labels min={np.nanmin(out) if out.size else None} max={np.nanmax(out) if out.size else None}", c)
             return
-    if model and a.size <= (MODEL_MAX_CELLS_MANY if c.get("tag", "").startswith("many:") else 400) and a.size > 0:
+    if model and a.size <= (MODEL_MAX_CELLS_MANY if c.get("tag", "").startswith("many:") else 400) and a.size > 0 \
+            and exactly_float64(a):
         requests.append(f"regions n={c['n']} g={grid_tok(a.astype(np.float64))}")
         lab = np.asarray(out).astype(np.float64)
         pending.append((c, f"{a.shape[0]}x{a.shape[1]}:" + ",".join(tok(v) for v in lab.ravel().tolist())))
@@ -778,6 +1046,23 @@ def run_enum_stream(r, plan):
     r.extra["enum_plan"] = [dict(alphabet=a, max_cells=m) for a, m in plan]
 
 
+def mag_tags(c, a):
+    if "vmap" not in c:
+        return []
+    t = ["mag:" + c["mag"]]
+    if a is not None and a.dtype.kind in "iu":
+        t.append("mag:cells>dtype-max" if np.iinfo(a.dtype).max < a.size else "mag:cells<=dtype-max")
+        if a.dtype.kind == "i" and (a < 0).any():
+            t.append("mag:negative-values")
+        if a.size and ((a == np.iinfo(a.dtype).min).any() or (a == np.iinfo(a.dtype).max).any()):
+            t.append("mag:dtype-extreme-present")
+    if a is not None and a.size and a.dtype.kind == "f" and np.nanmax(np.abs(np.where(np.isnan(a), 0, a))) >= 1e5:
+        t.append("mag:|v|>=1e5-present")
+    if a is not None and not equality_domain(a):
+        t.append("mag:outside-domain(not judged)")
+    return t
+
+
 def run(r, scale=1):
     r.rule = ("enum: every raster over the alphabet for every shape with h*w <= max_cells (float64, NaN as a symbol), both "
               "neighbourhoods, labels compared exactly with the model and checked by flood fill; random: shapes <= 12x14 and "
@@ -787,7 +1072,16 @@ def run(r, scale=1):
               "logical raster; every enumerated raster with h,w >= 2 is also run F-ordered; many: rasters up to ~1000 (thorough "
               "1600) cells with 60-1000 provisional labels (alternating rows with bridges, isolated cells with stamped shapes, "
               "dense random); narrow: uint8 / int8 / int16 rasters with more provisional labels than "
-              "the dtype counts; wild (model only): values within / just outside rtol, +-inf, ints >= 1e5; il:areaConnectivity: "
+              "the dtype counts, also re-valued (negative values, dtype extremes); magnitude x dtype (`magnify`): the rasters of "
+              "the random (every 2nd), many (every 3rd) and narrow streams and a stream of blobs / noise over 2-5 values in three "
+              "size classes (<= 88 cells; 130-221: more than int8 counts; 260-551: more than uint8 counts; one 33000..40000-cell "
+              "int16 column) are re-valued by an injective map of their alphabet into a class of one of the ten dtypes int8..uint64, "
+              "float32, float64 (each in turn): neg = small negative and positive values, edges = the dtype's extremes and their "
+              "neighbours (64-bit: +-(2^62-1)), bigclose = large values 3..40 tolerances apart (1e5, 1e6, 2^24, 1e9, 1e12, 2^53-1e12, "
+              "+-1e20), spike = the small classes kept and 1-3 cells overwritten with 1e5 / 1e6 / 1e20 / -999999 / -9999 / dtype "
+              "extremes; judged by flood fill on equal values (integers compared as integers) whenever any two different values "
+              "of the raster are further apart than 2*(atol + rtol*max|v|), failing rasters are cropped greedily; "
+              "wild (model only): values within / just outside rtol, +-inf, ints >= 1e5; il:areaConnectivity: "
               "the generated program vs the numba function on rasters <= 9x12 (random, late-merging shapes, many labels, "
               "close-but-unequal values, +-inf, NaN frames / rows / scatter / all, 1xN / Nx1, n = 4 / 8, C / F / transposed / "
               "strided / negative-stride arrays); non-trivial = "
@@ -804,25 +1098,41 @@ def run(r, scale=1):
     n_rand = {"quick": 700, "thorough": 6000}[r.tier] * scale
     for k in range(n_rand):
         c = gen_case(r.rng, big=(k % 3 == 0))
+        if k % 2 == 1:
+            c = magnify(r.rng, c, materialise(c))
         a = materialise(c)
         nontriv = a.size >= 2 and (len(set(a.ravel().tolist())) >= 2)
         r.case(c, desc=c if k < 2 else None, nontrivial=nontriv,
-               tags=[f"dtype:{c['dtype']}", f"n:{c['n']}", c["tag"], "nan" if (a != a).any() else "no-nan",
+               tags=mag_tags(c, a) + [f"dtype:{c['dtype']}", f"n:{c['n']}", c["tag"], "nan" if (a != a).any() else "no-nan",
                      "1xN" if a.shape[0] == 1 else ("Nx1" if a.shape[1] == 1 else "2d"), f"layout:{c['layout']}",
                      "numba-layout:" + layout_class(lay(a, c["layout"]))])
         check_case(r, c, requests, pending)
     # --- many provisional labels (combs with bridges at chosen ids, sparse merges, dense random)
     for k in range({"quick": 60, "thorough": 600}[r.tier] * scale):
         c = gen_many(r.rng, max_cells={"quick": 1000, "thorough": 1600}[r.tier])
+        if k % 3 == 2:
+            c = magnify(r.rng, c, materialise(c))
         a = materialise(c)
         r.case(c, desc=dict(c, grid=f"{a.shape[0]}x{a.shape[1]}") if k < 1 else None, nontrivial=True,
-               tags=[c["tag"], f"dtype:{c['dtype']}", f"n:{c['n']}", f"layout:{c['layout']}",
+               tags=mag_tags(c, a) + [c["tag"], f"dtype:{c['dtype']}", f"n:{c['n']}", f"layout:{c['layout']}",
                      "many:cells>=%d" % (100 * (a.size // 100)) if a.size < 500 else "many:cells>=500"])
         check_case(r, c, requests, pending)
     # --- narrow integer dtypes
     for k in range({"quick": 6, "thorough": 16}[r.tier] * scale):
         c = gen_narrow(r.rng, k % 4)
         r.case(c, desc=c if k == 0 else None, nontrivial=True, tags=[c["tag"], f"dtype:{c['dtype']}"])
+        check_case(r, c, requests, pending)
+        # the same picture over other values of the dtype (negative where signed, the dtype's extremes)
+        c2 = magnify(r.rng, c, np.array([[0.0, 1.0]]), dtypes=[c["dtype"]], classes=["neg", "edges"])
+        if "vmap" in c2:
+            r.case(c2, nontrivial=True, tags=mag_tags(c2, None) + [c["tag"], f"dtype:{c['dtype']}"])
+            check_case(r, c2, requests, pending)
+    # --- value magnitude x dtype (every dtype in turn)
+    for k in range({"quick": 500, "thorough": 6000}[r.tier] * scale):
+        c = gen_mag(r.rng, k)
+        a = materialise(c)
+        r.case(c, desc=c if k == 0 else None, nontrivial=a.size >= 2,
+               tags=mag_tags(c, a) + [c["tag"], f"dtype:{c['dtype']}", f"n:{c['n']}", "nan" if (a != a).any() else "no-nan"])
         check_case(r, c, requests, pending)
     # --- outside the domain: model vs code only
     for k in range({"quick": 300, "thorough": 3000}[r.tier] * scale):
@@ -839,6 +1149,12 @@ def run(r, scale=1):
     il_corr.stream(r, ["areaConnectivity"], {"quick": 500, "thorough": 5000}[r.tier] * scale)
     r.assumptions.append("float closeness (rtol/atol) is modelled in exact rational arithmetic; values are integers, "
                          "dyadics, or at least 1e-7 relative away from the tolerance boundary")
+    r.assumptions.append("'same value' is equality: judged rasters hold finite values any two of which differ by more than "
+                         "2*(atol + rtol*max|v|) (closer large values are merged by the unchanged code by design: isclose is not an "
+                         "equivalence); 64-bit integers up to 2^62-1 in magnitude (beyond, the kernel's own integer subtraction "
+                         "wraps); the model is compared only on rasters whose values a float64 holds exactly")
+    r.assumptions.append("known finding D26 (regions:signed-minimum): the minimum of a signed integer dtype in a raster that is not "
+                         "widened matches nothing (abs overflow); classified by re-judging the raster without those cells")
     r.trusted.append("numba / numpy semantics of _area_connectivity (compared on the generated cases only)")
     r.trusted.append("layer T3: the translator harness/facts_il.py (validated by the il:areaConnectivity stream); numba's int64 "
                      "wrap-around and float32 rounding of labels above 2^24 are outside ILang")
@@ -870,7 +1186,9 @@ def search(r):
         return
     n = {"quick": 3000, "thorough": 20000}[r.tier]
     for k in range(n):
-        c = gen_many(r.rng) if k % 8 == 7 else gen_case(r.rng, big=True)
+        c = gen_many(r.rng) if k % 8 == 7 else gen_mag(r.rng, k) if k % 2 == 0 else gen_case(r.rng, big=True)
+        if k % 8 in (1, 7):
+            c = magnify(r.rng, c, materialise(c))
         r.case(c, nontrivial=True, tags=["search"])
         check_case(r, c, requests, pending, model=False)
         if len(r.failures) >= 3:
